@@ -8,6 +8,7 @@ what the sum-type spec prescribes; `etl::optional` and `etl::expected` are simul
 arbitrary element operator tables.
 -/
 import TetlProofs.C07.Lemmas
+import TetlProofs.C07.Select
 namespace Tetl.C07.Props
 open Tetl Tetl.C07
 
@@ -28,7 +29,7 @@ theorem visit1_active (c : Cfg) (v : V α) (h : v.idx < c.n) : visit1 c v = .ok 
   have hv : validIdx [v.idx] [c.n] = true := by simp [validIdx, h]
   simp [visit1, visit_dispatch _ _ hv, getAt]
 
-example : (⟨1, 7⟩ : V Nat).idx < (⟨2, false⟩ : Cfg).n := by decide
+example : (⟨1, 7⟩ : V Nat).idx < (⟨2, false, false, false, false⟩ : Cfg).n := by decide
 
 /-- `etl::visit(f, a, b)` hands the visitor the active alternatives of `a` and `b` -/
 theorem visit2_active (c : Cfg) (a b : V α) (ha : a.idx < c.n) (hb : b.idx < c.n) :
@@ -36,73 +37,106 @@ theorem visit2_active (c : Cfg) (a b : V α) (ha : a.idx < c.n) (hb : b.idx < c.
   have hv : validIdx [a.idx, b.idx] [c.n, c.n] = true := by simp [validIdx, ha, hb]
   simp [visit2, visit_dispatch _ _ hv, getAt]
 
-example : (⟨1, 7⟩ : V Nat).idx < (⟨2, false⟩ : Cfg).n := by decide
+example : (⟨1, 7⟩ : V Nat).idx < (⟨2, false, false, false, false⟩ : Cfg).n := by decide
 
 theorem destroy_ok (c : Cfg) (v : V α) (h : v.idx < c.n) : destroy c v = .ok () := by
   simp [destroy, visit1_active c v h]
 
-example : (⟨1, 7⟩ : V Nat).idx < (⟨2, false⟩ : Cfg).n := by decide
+example : (⟨1, 7⟩ : V Nat).idx < (⟨2, false, false, false, false⟩ : Cfg).n := by decide
 
 /-! ## special members -/
 
-/-- copy / move construction (defaulted or through `visit_with_index`): the new object equals the
-    source; a moved-from source keeps its index and holds a moved-from element -/
-theorem construct_refines (c : Cfg) (mvd : α → α) (htriv : c.triv = true → ∀ x, mvd x = x) (mv : Bool)
+/-- copy / move construction (defaulted or through `visit_with_index`): the new object holds the source's
+    alternative, copy constructed (move constructed) from the source's element; a moved-from source keeps its
+    index and holds the moved-from element -/
+theorem construct_refines (c : Cfg) (el : Elem α) (ht : TrivOK c el) (mv : Bool)
     (src : V α) (h : src.idx < c.n) :
-    construct c mvd mv src = .ok (src, if mv then Spec.mvdV mvd src else src) := by
-  unfold construct
-  by_cases ht : c.triv = true
-  · simp [ht, mvdV_triv (htriv ht)]
-  · simp [ht, visit1_active c src h, Spec.mvdV]
+    construct c el mv src = .ok (Spec.ctorV el mv src) := by
+  unfold construct Spec.ctorV Spec.cons Spec.noFb
+  cases mv
+  · by_cases hb : c.trivCC = true
+    · simp [hb, ht.cc hb]
+    · simp [hb, visit1_active c src h]
+  · by_cases hb : c.trivMC = true
+    · simp [hb, ht.mc hb]
+    · simp [hb, visit1_active c src h]
 
-example : (⟨2, true⟩ : Cfg).triv = true → ∀ x : Nat, id x = x := fun _ _ => rfl
+example : TrivOK ⟨2, false, false, false, false⟩ markElem := trivOK_mark 2
 
-/-- copy / move assignment between two distinct objects, same or different alternative -/
-theorem assign_refines (c : Cfg) (mvd : α → α) (htriv : c.triv = true → ∀ x, mvd x = x) (mv : Bool)
-    (dst src : V α) (hd : dst.idx < c.n) (hs : src.idx < c.n) :
-    assign c mvd mv dst src = .ok (src, if mv then Spec.mvdV mvd src else src) := by
-  unfold assign
-  by_cases ht : c.triv = true
-  · simp [ht, mvdV_triv (htriv ht)]
-  · simp only [ht, visit2_active c dst src hd hs]
-    by_cases he : dst.idx = src.idx
-    · cases dst; cases src; simp_all [Spec.mvdV]
-    · simp [he, destroy_ok c dst hd, Spec.mvdV]
+/-- copy / move assignment between two distinct objects: same alternative → the element's own copy / move
+    assignment; different alternative → destroy, then copy / move construct from the source.  `hfb`: no
+    alternative asks for the copy-then-move of [variant.assign]/2.4 (potentially-throwing copy constructor with
+    a non-throwing move constructor); `assign_fallback_counterexample` shows what happens otherwise. -/
+theorem assign_refines (c : Cfg) (el : Elem α) (ht : TrivOK c el) (fb : α → Bool) (hfb : ∀ x, fb x = false)
+    (mv : Bool) (dst src : V α) (hd : dst.idx < c.n) (hs : src.idx < c.n) :
+    assign c el mv dst src = .ok (Spec.assignV el fb mv dst src) := by
+  unfold assign Spec.assignV Spec.thru Spec.cons
+  cases mv
+  · by_cases hb : c.trivCA = true
+    · by_cases he : dst.idx = src.idx <;> simp [hb, (ht.ca hb).1, (ht.ca hb).2, hfb, he]
+    · simp only [hb, visit2_active c dst src hd hs]
+      by_cases he : dst.idx = src.idx
+      · simp [he]
+      · simp [he, destroy_ok c dst hd, hfb]
+  · by_cases hb : c.trivMA = true
+    · by_cases he : dst.idx = src.idx <;> simp [hb, (ht.ma hb).1, (ht.ma hb).2, he]
+    · simp only [hb, visit2_active c dst src hd hs]
+      by_cases he : dst.idx = src.idx
+      · simp [he]
+      · simp [he, destroy_ok c dst hd]
 
-example : (⟨2, true⟩ : Cfg).triv = true → ∀ x : Nat, id x = x := fun _ _ => rfl
+example : TrivOK ⟨2, false, false, false, false⟩ markElem ∧ ∀ x : Nat × Nat, (Spec.noFb x) = false :=
+  ⟨trivOK_mark 2, fun _ => rfl⟩
 
-theorem assignSelf_refines (c : Cfg) (v : V α) (h : v.idx < c.n) : assignSelf c v = .ok v := by
+/-- known finding F-C07-copy-assign-no-copy-then-move: for an alternative with a potentially-throwing copy
+    constructor and a non-throwing move constructor, [variant.assign]/2.4 copy-assigns a different alternative
+    as `operator=(variant(rhs))` (copy construct a temporary, move construct from it: mark 2); `etl::variant`
+    copy constructs in place (mark 1) -/
+theorem assign_fallback_counterexample :
+    assign ⟨2, false, false, false, false⟩ markElem false ⟨0, (5, 0)⟩ ⟨1, (7, 0)⟩ = .ok (⟨1, (7, 1)⟩, ⟨1, (7, 0)⟩)
+      ∧ Spec.assignV markElem (fun _ => true) false ⟨0, (5, 0)⟩ ⟨1, (7, 0)⟩ = (⟨1, (7, 2)⟩, ⟨1, (7, 0)⟩) :=
+  ⟨rfl, rfl⟩
+
+theorem assignSelf_refines (c : Cfg) (mv : Bool) (v : V α) (h : v.idx < c.n) : assignSelf c mv v = .ok v := by
   unfold assignSelf
-  by_cases ht : c.triv = true
-  · simp [ht]
-  · simp [ht, visit2_active c v v h h]
+  by_cases hb : (if mv then c.trivMA else c.trivCA) = true
+  · simp [hb]
+  · simp [hb, visit2_active c v v h h]
 
-example : (⟨1, 7⟩ : V Nat).idx < (⟨2, false⟩ : Cfg).n := by decide
+example : (⟨1, 7⟩ : V Nat).idx < (⟨2, false, false, false, false⟩ : Cfg).n := by decide
 
-/-- the generic `etl::swap` (three moves through a temporary) exchanges two variants, whatever their alternatives -/
-theorem swap2_refines (c : Cfg) (mvd : α → α) (htriv : c.triv = true → ∀ x, mvd x = x)
-    (a b : V α) (ha : a.idx < c.n) (hb : b.idx < c.n) : swap2 c mvd a b = .ok (b, a) := by
-  have hma : (Spec.mvdV mvd a).idx < c.n := ha
-  have hmb : (Spec.mvdV mvd b).idx < c.n := hb
-  simp [swap2, construct_refines c mvd htriv true a ha, assign_refines c mvd htriv true _ b hma hb,
-    assign_refines c mvd htriv true _ a hmb ha, destroy_ok c _ hma]
+/-- the generic `etl::swap` (three moves through a temporary) on two variants, whatever their alternatives,
+    is the three-move exchange of [utility.swap] on (index, value) pairs -/
+theorem swap2_refines (c : Cfg) (el : Elem α) (ht : TrivOK c el)
+    (a b : V α) (ha : a.idx < c.n) (hb : b.idx < c.n) : swap2 c el a b = .ok (Spec.swapV el a b) := by
+  have h1 : (Spec.ctorV el true a).1.idx < c.n := ha
+  have h2 : (Spec.ctorV el true a).2.idx < c.n := ha
+  have h3 : (Spec.assignV el Spec.noFb true (Spec.ctorV el true a).2 b).2.idx < c.n := by simpa using hb
+  have h4 : (Spec.assignV el Spec.noFb true (Spec.assignV el Spec.noFb true (Spec.ctorV el true a).2 b).2
+      (Spec.ctorV el true a).1).2.idx < c.n := by simpa using ha
+  simp [swap2, Spec.swapV, construct_refines c el ht true a ha,
+    assign_refines c el ht Spec.noFb (fun _ => rfl) true _ b h2 hb,
+    assign_refines c el ht Spec.noFb (fun _ => rfl) true _ _ h3 h1, destroy_ok c _ h4]
 
-example : (⟨2, true⟩ : Cfg).triv = true → ∀ x : Nat, id x = x := fun _ _ => rfl
+example : TrivOK ⟨2, false, false, false, false⟩ markElem := trivOK_mark 2
 
-theorem swapSelf_refines (c : Cfg) (mvd : α → α) (htriv : c.triv = true → ∀ x, mvd x = x)
-    (a : V α) (ha : a.idx < c.n) : swapSelf c mvd a = .ok a := by
-  have hma : (Spec.mvdV mvd a).idx < c.n := ha
-  simp [swapSelf, construct_refines c mvd htriv true a ha, assignSelf_refines c _ hma,
-    assign_refines c mvd htriv true _ a hma ha, destroy_ok c _ hma]
+theorem swapSelf_refines (c : Cfg) (el : Elem α) (ht : TrivOK c el)
+    (a : V α) (ha : a.idx < c.n) : swapSelf c el a = .ok (Spec.swapSelfV el a) := by
+  have h1 : (Spec.ctorV el true a).1.idx < c.n := ha
+  have h2 : (Spec.ctorV el true a).2.idx < c.n := ha
+  have h4 : (Spec.assignV el Spec.noFb true (Spec.ctorV el true a).2 (Spec.ctorV el true a).1).2.idx < c.n := by
+    simpa using ha
+  simp [swapSelf, Spec.swapSelfV, construct_refines c el ht true a ha, assignSelf_refines c true _ h2,
+    assign_refines c el ht Spec.noFb (fun _ => rfl) true _ _ h2 h1, destroy_ok c _ h4]
 
-example : (⟨2, true⟩ : Cfg).triv = true → ∀ x : Nat, id x = x := fun _ _ => rfl
+example : TrivOK ⟨2, false, false, false, false⟩ markElem := trivOK_mark 2
 
 /-! ## histories -/
 
 /-- one operation of a history: the model succeeds and yields the spec's state -/
-theorem step_refines (c : Cfg) (mvd : α → α) (htriv : c.triv = true → ∀ x, mvd x = x)
+theorem step_refines (c : Cfg) (el : Elem α) (ht : TrivOK c el) (fb : α → Bool) (hfb : ∀ x, fb x = false)
     (st : List (V α)) (hwf : WF c st) (op : Op α) (hv : Spec.valid c.n st op = true) :
-    step c mvd st op = .ok (Spec.step mvd st op) := by
+    step c el st op = .ok (Spec.step el fb st op) := by
   cases op with
   | emplace k i x =>
     simp only [Spec.valid, Bool.and_eq_true, decide_eq_true_eq] at hv
@@ -118,23 +152,23 @@ theorem step_refines (c : Cfg) (mvd : α → α) (htriv : c.triv = true → ∀ 
     have hj := hwf _ (List.getElem_mem hv.2)
     by_cases hkj : k = j
     · subst hkj
-      simp [step, rd_ok st k hv.1, assignSelf_refines c _ hk, put_ok st k _ hv.1, Spec.step, hv.1]
-    · have hj' : j < (st.set k st[j]).length := by simp [hv.2]
-      simp [step, hkj, rd_ok st k hv.1, rd_ok st j hv.2, assign_refines c mvd htriv mv _ _ hk hj,
-        put_ok st k _ hv.1, put_ok _ j _ hj', Spec.step, hv.2]
+      simp [step, rd_ok st k hv.1, assignSelf_refines c mv _ hk, put_ok st k _ hv.1, Spec.step, hv.1]
+    · have hj' : j < (st.set k (Spec.assignV el fb mv st[k] st[j]).1).length := by simp [hv.2]
+      simp [step, hkj, rd_ok st k hv.1, rd_ok st j hv.2, assign_refines c el ht fb hfb mv _ _ hk hj,
+        put_ok st k _ hv.1, put_ok _ j _ hj', Spec.step, hv.1, hv.2]
   | ctor k j mv =>
     simp only [Spec.valid, Bool.and_eq_true, decide_eq_true_eq] at hv
     have hk := hwf _ (List.getElem_mem hv.1)
     have hj := hwf _ (List.getElem_mem hv.2)
-    have hmj : (if mv then Spec.mvdV mvd st[j] else st[j]).idx < c.n := by cases mv <;> exact hj
+    have hmj : (Spec.ctorV el mv st[j]).2.idx < c.n := hj
     by_cases hkj : k = j
     · subst hkj
-      simp [step, rd_ok st k hv.1, construct_refines c mvd htriv mv _ hk, destroy_ok c _ hmj,
+      simp [step, rd_ok st k hv.1, construct_refines c el ht mv _ hk, destroy_ok c _ hmj,
         put_ok st k _ hv.1, Spec.step, hv.1]
-    · have hk' : k < (st.set j (if mv then Spec.mvdV mvd st[j] else st[j])).length := by simp [hv.1]
-      have hold : (st.set j (if mv then Spec.mvdV mvd st[j] else st[j]))[k]'hk' = st[k] := by
+    · have hk' : k < (st.set j (Spec.ctorV el mv st[j]).2).length := by simp [hv.1]
+      have hold : (st.set j (Spec.ctorV el mv st[j]).2)[k]'hk' = st[k] := by
         rw [List.getElem_set_ne (Ne.symm hkj)]
-      simp [step, hkj, rd_ok st j hv.2, construct_refines c mvd htriv mv _ hj, put_ok st j _ hv.2,
+      simp [step, hkj, rd_ok st j hv.2, construct_refines c el ht mv _ hj, put_ok st j _ hv.2,
         rd_ok _ k hv.1, destroy_ok c _ hk, put_ok _ k _ hk', Spec.step, hv.2]
   | swap k j =>
     simp only [Spec.valid, Bool.and_eq_true, decide_eq_true_eq] at hv
@@ -142,16 +176,16 @@ theorem step_refines (c : Cfg) (mvd : α → α) (htriv : c.triv = true → ∀ 
     have hj := hwf _ (List.getElem_mem hv.2)
     by_cases hkj : k = j
     · subst hkj
-      simp [step, rd_ok st k hv.1, swapSelf_refines c mvd htriv _ hk, put_ok st k _ hv.1, Spec.step, hv.1]
-    · have hj' : j < (st.set k st[j]).length := by simp [hv.2]
-      simp [step, hkj, rd_ok st k hv.1, rd_ok st j hv.2, swap2_refines c mvd htriv _ _ hk hj,
+      simp [step, rd_ok st k hv.1, swapSelf_refines c el ht _ hk, put_ok st k _ hv.1, Spec.step, hv.1]
+    · have hj' : j < (st.set k (Spec.swapV el st[k] st[j]).1).length := by simp [hv.2]
+      simp [step, hkj, rd_ok st k hv.1, rd_ok st j hv.2, swap2_refines c el ht _ _ hk hj,
         put_ok st k _ hv.1, put_ok _ j _ hj', Spec.step, hv.1, hv.2]
 
-example : Spec.valid 2 [(⟨0, 5⟩ : V Nat), ⟨1, 7⟩] (.assign 0 1 true) = true := by decide
+example : Spec.valid 2 [(⟨0, (5, 0)⟩ : V (Nat × Nat)), ⟨1, (7, 0)⟩] (.assign 0 1 true) = true := by decide
 
 /-- the invariant "every object holds one of its alternatives" is preserved -/
-theorem wf_step (c : Cfg) (mvd : α → α) (st : List (V α)) (hwf : WF c st) (op : Op α)
-    (hv : Spec.valid c.n st op = true) : WF c (Spec.step mvd st op) := by
+theorem wf_step (c : Cfg) (el : Elem α) (fb : α → Bool) (st : List (V α)) (hwf : WF c st) (op : Op α)
+    (hv : Spec.valid c.n st op = true) : WF c (Spec.step el fb st op) := by
   cases op with
   | emplace k i x =>
     simp only [Spec.valid, Bool.and_eq_true, decide_eq_true_eq] at hv
@@ -162,56 +196,63 @@ theorem wf_step (c : Cfg) (mvd : α → α) (st : List (V α)) (hwf : WF c st) (
   | assign k j mv =>
     simp only [Spec.valid, Bool.and_eq_true, decide_eq_true_eq] at hv
     have hj := hwf _ (List.getElem_mem hv.2)
-    simp only [Spec.step, List.getElem?_eq_getElem hv.2]
+    simp only [Spec.step, List.getElem?_eq_getElem hv.1, List.getElem?_eq_getElem hv.2]
     by_cases hkj : k = j
     · simp [hkj]; exact hwf
     · simp only [hkj, if_false]
-      exact wf_set (wf_set hwf k _ hj) j _ (by cases mv <;> exact hj)
+      exact wf_set (wf_set hwf k _ (by simpa using hj)) j _ (by simpa using hj)
   | ctor k j mv =>
     simp only [Spec.valid, Bool.and_eq_true, decide_eq_true_eq] at hv
     have hj := hwf _ (List.getElem_mem hv.2)
     simp only [Spec.step, List.getElem?_eq_getElem hv.2]
     by_cases hkj : k = j
-    · simp [hkj]; exact hwf
+    · simp only [hkj, if_true]; exact wf_set hwf j (Spec.ctorV el mv st[j]).1 hj
     · simp only [hkj, if_false]
-      exact wf_set (wf_set hwf j _ (by cases mv <;> exact hj)) k _ hj
+      exact wf_set (wf_set hwf j (Spec.ctorV el mv st[j]).2 hj) k (Spec.ctorV el mv st[j]).1 hj
   | swap k j =>
     simp only [Spec.valid, Bool.and_eq_true, decide_eq_true_eq] at hv
     have hk := hwf _ (List.getElem_mem hv.1)
     have hj := hwf _ (List.getElem_mem hv.2)
     simp only [Spec.step, List.getElem?_eq_getElem hv.1, List.getElem?_eq_getElem hv.2]
-    exact wf_set (wf_set hwf k _ hj) j _ hk
+    by_cases hkj : k = j
+    · simp only [hkj, if_true]
+      exact wf_set hwf j _ (by simp [Spec.swapSelfV]; exact hj)
+    · simp only [hkj, if_false]
+      exact wf_set (wf_set hwf k _ (by simp [Spec.swapV]; exact hj)) j _ (by simp [Spec.swapV]; exact hk)
 
-example : Spec.valid 2 [(⟨0, 5⟩ : V Nat), ⟨1, 7⟩] (.ctor 1 0 false) = true := by decide
+example : Spec.valid 2 [(⟨0, (5, 0)⟩ : V (Nat × Nat)), ⟨1, (7, 0)⟩] (.ctor 1 0 false) = true := by decide
 
 /-- whole histories of any length over any number of objects: the model never fails and every object ends
-    with the index and the value the spec prescribes (moved-from sources included) -/
-theorem run_refines (c : Cfg) (mvd : α → α) (htriv : c.triv = true → ∀ x, mvd x = x) :
-    ∀ (ops : List (Op α)) (st : List (V α)), WF c st → Spec.validRun c.n mvd st ops = true →
-      run c mvd st ops = .ok (Spec.run mvd st ops) ∧ WF c (Spec.run mvd st ops)
+    with the index and the value the spec prescribes (which special member of the element produced it and the
+    moved-from sources included) -/
+theorem run_refines (c : Cfg) (el : Elem α) (ht : TrivOK c el) (fb : α → Bool) (hfb : ∀ x, fb x = false) :
+    ∀ (ops : List (Op α)) (st : List (V α)), WF c st → Spec.validRun c.n el fb st ops = true →
+      run c el st ops = .ok (Spec.run el fb st ops) ∧ WF c (Spec.run el fb st ops)
   | [], st, hwf, _ => ⟨rfl, hwf⟩
   | op :: ops, st, hwf, hv => by
     simp only [Spec.validRun, Bool.and_eq_true] at hv
-    have h1 := step_refines c mvd htriv st hwf op hv.1
-    have h2 := wf_step c mvd st hwf op hv.1
-    have ih := run_refines c mvd htriv ops _ h2 hv.2
+    have h1 := step_refines c el ht fb hfb st hwf op hv.1
+    have h2 := wf_step c el fb st hwf op hv.1
+    have ih := run_refines c el ht fb hfb ops _ h2 hv.2
     simp only [run, h1, Spec.run]
     exact ih
 
-example : Spec.validRun 2 id [(⟨0, 5⟩ : V Nat), ⟨1, 7⟩] [.swap 0 1, .assign 1 1 true, .emplace 0 1 3] = true := by
+example : Spec.validRun 2 markElem Spec.noFb [(⟨0, (5, 0)⟩ : V (Nat × Nat)), ⟨1, (7, 0)⟩]
+    [.swap 0 1, .assign 1 1 true, .emplace 0 1 (3, 0), .assign 0 1 false] = true := by
   decide
 
 /-! ## optional and expected on top of the variant -/
 
 /-- `etl::optional<T>` (reset = `emplace<0>(nullopt)`, emplace = `emplace<1>`, copy/move/swap = the
-    variant's) is a simulation of `Option`: after any operation, `has_value()` and `*o` of every object are
-    what the `Option` spec gives, and the model does not fail. -/
-theorem optional_refines (c : Cfg) (hc : c.n = 2) (mvd : α → α) (htriv : c.triv = true → ∀ x, mvd x = x)
+    variant's) is a simulation of [optional.assign] / [optional.ctor] / the generic swap on `Option`: after any
+    operation, `has_value()` and `*o` of every object are what the `Option` spec gives (engaged ← engaged assigns
+    through, empty ← engaged constructs, no copy-then-move), and the model does not fail. -/
+theorem optional_refines (c : Cfg) (hc : c.n = 2) (el : Elem α) (ht : TrivOK c el)
     (nullv : α) (st : List (V α)) (hwf : WF c st) (op : Spec.OOp α)
     (hv : Spec.valid 2 st (Spec.optToVar nullv op) = true) :
-    (step c mvd st (Spec.optToVar nullv op)).map (List.map Spec.absO)
-      = .ok (Spec.ostep mvd (st.map Spec.absO) op) := by
-  rw [step_refines c mvd htriv st hwf _ (by rw [hc]; exact hv)]
+    (step c el st (Spec.optToVar nullv op)).map (List.map Spec.absO)
+      = .ok (Spec.ostep el (st.map Spec.absO) op) := by
+  rw [step_refines c el ht Spec.noFb (fun _ => rfl) st hwf _ (by rw [hc]; exact hv)]
   simp only [ok_map]
   congr 1
   cases op with
@@ -219,60 +260,68 @@ theorem optional_refines (c : Cfg) (hc : c.n = 2) (mvd : α → α) (htriv : c.t
   | emplace k x => simp [Spec.optToVar, Spec.step, Spec.ostep, List.map_set, Spec.absO]
   | assign k j mv =>
     simp only [Spec.optToVar, Spec.step, Spec.ostep, List.getElem?_map]
-    cases hj : st[j]? with
-    | none => simp
-    | some s =>
-      by_cases hkj : k = j
-      · simp [hkj]
-      · cases mv <;> simp [hkj, List.map_set, absO_mvdV]
+    cases hk : st[k]? <;> cases hj : st[j]? <;> simp only [Option.map_some, Option.map_none]
+    by_cases hkj : k = j
+    · simp [hkj]
+    · simp only [hkj, if_false, List.map_set, absO_assignV1, absO_assignV2]
   | ctor k j mv =>
     simp only [Spec.optToVar, Spec.step, Spec.ostep, List.getElem?_map]
-    cases hj : st[j]? with
-    | none => simp
-    | some s =>
-      by_cases hkj : k = j
-      · simp [hkj]
-      · cases mv <;> simp [hkj, List.map_set, absO_mvdV]
+    cases hj : st[j]? <;> simp only [Option.map_some, Option.map_none]
+    by_cases hkj : k = j
+    · simp only [hkj, if_true, List.map_set, absO_ctorV1]
+    · simp only [hkj, if_false, List.map_set, absO_ctorV1, absO_ctorV2]
   | swap k j =>
     simp only [Spec.optToVar, Spec.step, Spec.ostep, List.getElem?_map]
-    cases hk : st[k]? <;> cases hj : st[j]? <;> simp [List.map_set]
+    cases hk : st[k]? <;> cases hj : st[j]? <;> simp only [Option.map_some, Option.map_none]
+    by_cases hkj : k = j
+    · simp only [hkj, if_true, List.map_set, absO_swapSelfV]
+    · simp only [hkj, if_false, List.map_set, absO_swapV1, absO_swapV2]
 
-example : Spec.valid 2 [(⟨0, 0⟩ : V Nat), ⟨1, 7⟩] (Spec.optToVar 0 (.assign 0 1 true)) = true := by decide
+example : Spec.valid 2 [(⟨0, (0, 0)⟩ : V (Nat × Nat)), ⟨1, (7, 0)⟩] (Spec.optToVar (0, 0) (.assign 0 1 true)) = true := by
+  decide
 
 /-- `etl::expected<T,E>` (value = index 0, in-place construction, `emplace = _u.emplace<0>`, copy/move/swap = the
-    variant's) is a simulation of value-or-error -/
-theorem expected_refines (c : Cfg) (hc : c.n = 2) (mvd : α → α) (htriv : c.triv = true → ∀ x, mvd x = x)
+    variant's) is a simulation of [expected.object.assign] / [expected.object.cons] on value-or-error (`hfb`: no
+    member type asks for reinit-expected's copy-then-move) -/
+theorem expected_refines (c : Cfg) (hc : c.n = 2) (el : Elem α) (ht : TrivOK c el)
+    (fb : α → Bool) (hfb : ∀ x, fb x = false)
     (viaEmplace : Bool) (st : List (V α)) (hwf : WF c st) (op : Spec.EOp α)
     (hv : Spec.valid 2 st (Spec.expToVar viaEmplace op) = true) :
-    (step c mvd st (Spec.expToVar viaEmplace op)).map (List.map Spec.absE)
-      = .ok (Spec.estep mvd (st.map Spec.absE) op) := by
-  rw [step_refines c mvd htriv st hwf _ (by rw [hc]; exact hv)]
+    (step c el st (Spec.expToVar viaEmplace op)).map (List.map Spec.absE)
+      = .ok (Spec.estep el fb (st.map Spec.absE) op) := by
+  rw [step_refines c el ht fb hfb st hwf _ (by rw [hc]; exact hv)]
   simp only [ok_map]
   congr 1
+  have h2 : ∀ {k : Nat} {v : V α}, st[k]? = some v → v.idx < 2 := by
+    intro k v h
+    have := hwf v (List.mem_of_getElem? h)
+    omega
   cases op with
   | setVal k x => cases viaEmplace <;> simp [Spec.expToVar, Spec.step, Spec.estep, List.map_set, Spec.absE]
   | setErr k x => simp [Spec.expToVar, Spec.step, Spec.estep, List.map_set, Spec.absE]
   | assign k j mv =>
     simp only [Spec.expToVar, Spec.step, Spec.estep, List.getElem?_map]
-    cases hj : st[j]? with
-    | none => simp
-    | some s =>
-      by_cases hkj : k = j
-      · simp [hkj]
-      · cases mv <;> simp [hkj, List.map_set, absE_mvdV]
+    cases hk : st[k]? <;> cases hj : st[j]? <;> simp only [Option.map_some, Option.map_none]
+    by_cases hkj : k = j
+    · simp [hkj]
+    · simp only [hkj, if_false, List.map_set, absE_assignV1 _ _ _ _ _ (h2 hk) (h2 hj),
+        absE_assignV2 _ _ _ _ _ (h2 hk) (h2 hj)]
   | ctor k j mv =>
     simp only [Spec.expToVar, Spec.step, Spec.estep, List.getElem?_map]
-    cases hj : st[j]? with
-    | none => simp
-    | some s =>
-      by_cases hkj : k = j
-      · simp [hkj]
-      · cases mv <;> simp [hkj, List.map_set, absE_mvdV]
+    cases hj : st[j]? <;> simp only [Option.map_some, Option.map_none]
+    by_cases hkj : k = j
+    · simp only [hkj, if_true, List.map_set, absE_ctorV1]
+    · simp only [hkj, if_false, List.map_set, absE_ctorV1, absE_ctorV2]
   | swap k j =>
     simp only [Spec.expToVar, Spec.step, Spec.estep, List.getElem?_map]
-    cases hk : st[k]? <;> cases hj : st[j]? <;> simp [List.map_set]
+    cases hk : st[k]? <;> cases hj : st[j]? <;> simp only [Option.map_some, Option.map_none]
+    by_cases hkj : k = j
+    · subst hkj
+      simp only [if_true, List.map_set, absE_swapSelfV _ _ (h2 hk)]
+    · simp only [hkj, if_false, List.map_set, absE_swapV1 _ _ _ (h2 hk) (h2 hj), absE_swapV2 _ _ _ (h2 hk) (h2 hj)]
 
-example : Spec.valid 2 [(⟨0, 0⟩ : V Nat), ⟨1, 7⟩] (Spec.expToVar true (.setVal 1 4)) = true := by decide
+example : Spec.valid 2 [(⟨0, (0, 0)⟩ : V (Nat × Nat)), ⟨1, (7, 0)⟩] (Spec.expToVar true (.setVal 1 (4, 0))) = true := by
+  decide
 
 /-! ## observers -/
 
@@ -287,6 +336,56 @@ theorem valueOr_eq (v : V α) (d : α) : valueOr v d = .ok ((Spec.absO v).getD d
 theorem andThen_eq {ρ : Type} (v : V α) (f : α → ρ) : andThen v f = .ok ((Spec.absO v).map f) := by
   unfold andThen hasValue deref getAt Spec.absO
   by_cases h : v.idx = 1 <;> simp [h]
+
+/-- optional::or_else hands on the contained value exactly when the optional is engaged, and never reads an empty one -/
+theorem orElse_eq (v : V α) : orElse v = .ok (Spec.absO v) := by
+  unfold orElse hasValue deref getAt Spec.absO
+  by_cases h : v.idx = 1 <;> simp [h]
+
+/-- expected::value_or, for an object holding one of its two members -/
+theorem expValueOr_eq (v : V α) (d : α) (h : v.idx < 2) : expValueOr v d = .ok ((Spec.absE v).valueOr d) := by
+  unfold expValueOr expDeref expHas getAt Spec.absE
+  by_cases h0 : v.idx = 0 <;> simp [h0, Spec.E.valueOr]
+
+example : (⟨1, 7⟩ : V Nat).idx < 2 := by decide
+
+/-- expected::and_then: the callable sees the value, an error is propagated; the `error()` precondition holds on the
+    path that calls it -/
+theorem expAndThen_eq {ρ : Type} (v : V α) (f onErr : α → ρ) (h : v.idx < 2) :
+    expAndThen v f onErr = .ok ((Spec.absE v).andThen f onErr) := by
+  unfold expAndThen expDeref expError expHas getAt Spec.absE
+  have : v.idx = 0 ∨ v.idx = 1 := by omega
+  rcases this with h0 | h1
+  · simp [h0, Spec.E.andThen]
+  · simp [h1, Spec.E.andThen]
+
+example : (⟨1, 7⟩ : V Nat).idx < 2 := by decide
+
+/-- expected::or_else: a value is handed on, the callable sees the error -/
+theorem expOrElse_eq {ρ : Type} (v : V α) (onVal f : α → ρ) (h : v.idx < 2) :
+    expOrElse v onVal f = .ok ((Spec.absE v).orElse onVal f) := by
+  unfold expOrElse expDeref expError expHas getAt Spec.absE
+  have : v.idx = 0 ∨ v.idx = 1 := by omega
+  rcases this with h0 | h1
+  · simp [h0, Spec.E.orElse]
+  · simp [h1, Spec.E.orElse]
+
+example : (⟨0, 7⟩ : V Nat).idx < 2 := by decide
+
+/-- expected::error() on an object holding its error member -/
+theorem expError_eq (v : V α) (h : v.idx = 1) : expError v = .ok v.val := by
+  unfold expError expHas getAt
+  simp [h]
+
+example : (⟨1, 7⟩ : V Nat).idx = 1 := rfl
+
+/-! ## converting constructor / assignment: which alternative -/
+
+/-- the overload-resolution scan of the converting constructor and converting assignment (left to right, best
+    non-narrowing candidate so far, tie flag) selects exactly the alternative [variant.ctor]/[variant.assign]
+    prescribe: the unique viable alternative that is strictly better than every other viable one, and nothing
+    when there is none or the best is tied — for any number of alternatives and any candidate table -/
+theorem select_eq (cands : List (Option Cand)) : select cands = Spec.select cands := Tetl.C07.select_eq cands
 
 /-! ## relational operators -/
 
